@@ -254,7 +254,11 @@ class C15(RoundTripCheck):
         nt = (arch.name, key.hex()) if (len(instr.args) >= 1 and ncands >= 1) else None
         sample = None
         if nt and stratum == "enum" and not res.samples and len(state["seen"]) > 50:
-            sample = {"arch": arch.name, "hex": key.hex(), "text": str(instr), "candidates": ncands}
+            try:
+                text = str(instr)
+            except Exception as ex:      # printing is C16's business (e.g. sh4 PC-relative MOV asserts)
+                text = "<str() raised %s>" % type(ex).__name__
+            sample = {"arch": arch.name, "hex": key.hex(), "text": text, "candidates": ncands}
         res.case(nontrivial_key=nt, sample=sample)
         if ncands >= 2:
             res.counters["multi-candidate:%s" % arch.name] += 1
